@@ -2,8 +2,9 @@ SPECIFICATION Spec
 CONSTANTS
   V <- VFixed
   MaxLen = 4
-  HistFmts = {"standard", "canonical"}
+  HistFmts = {"standard"}
   PrintFmts = {"standard", "canonical"}
+  ObsSeq <- ObsStdCanon
 INVARIANT HistRoundTrip
 INVARIANT HistIndependent
 INVARIANT HistWellFormed
